@@ -1,12 +1,16 @@
-import Zstd.Proofs.FrameDecoderFollows
+import Zstd.Proofs.FrameDecoderStandIn
+import Zstd.Proofs.FrameFaithful
 /-
 C06 — the decoded stream is independent of how the caller drives the decoder.
 
 Property theorems only; helper lemmas in `Zstd/Proofs/FrameDecoder*.lean`.  Everything is stated for
 ALL states, sources, budgets, sink scripts and ring splits (no bound).
 -/
+set_option linter.unusedSectionVars false
 namespace Zstd.Props.C06
 open Zstd Zstd.Model
+
+variable {σ : Type} [BlockDec σ] [BlockContract σ]
 
 /-! ### drain exactness -/
 
@@ -69,7 +73,7 @@ theorem driver_sink_script_sound (b : DBuf) (amount B : Nat) (failAfter : Bool) 
   DBuf.drainToSink_driverScript b amount B failAfter
 
 /-- every drain operation of the API delivers a front piece of the buffer and keeps the rest -/
-theorem drain_delivers_front (d : Decoder) (op : DrainOp) :
+theorem drain_delivers_front (d : Decoder σ) (op : DrainOp) :
     (applyDrain d op).2 ++ (applyDrain d op).1.content = d.content := by
   rcases applyDrain_take d op with ⟨hn, he⟩ | ⟨st, k, hs, hk, he⟩
   · rw [he]; simp
@@ -77,7 +81,7 @@ theorem drain_delivers_front (d : Decoder) (op : DrainOp) :
 
 /-- `retained_window`: while the last block is not in, every drain operation leaves at least
 `window_size` bytes (or everything there was) in the buffer — window retention is never off by one -/
-theorem retained_window (d : Decoder) (op : DrainOp) (h : d.blocksDone = false) :
+theorem retained_window (d : Decoder σ) (op : DrainOp) (h : d.blocksDone = false) :
     min d.window d.content.size ≤ (applyDrain d op).1.content.size ∧
     (applyDrain d op).1.window = d.window ∧ (applyDrain d op).1.blocksDone = false :=
   applyDrain_retains d op h
@@ -125,24 +129,24 @@ theorem executeSequences_nothing_drained (seqs : List Spec.Seq) (lits : List Nat
 the drained state `st` and on its never-drained twin (`d` = the bytes already handed out still in
 front; hasher field arbitrary): same outcome (errors included), same source left, same bytes appended,
 same entropy tables / offset history / counters — provided its offsets are ≤ `W ≤` retained bytes -/
-theorem decodeOneBlock_twin (W : Nat) (d x : Array Nat) (st : FState) (s : Src)
+theorem decodeOneBlock_twin (W : Nat) (d x : Array Nat) (st : FState σ) (s : Src)
     (hW : W ≤ st.buf.content.size) (hoff : ∀ o ∈ nextBlockOffsets st s, o ≤ W) :
     decodeOneBlock (st.twin d x) s = ((decodeOneBlock st s).1.twin d x, (decodeOneBlock st s).2) :=
   Model.decodeOneBlock_twin W d x st s hW hoff
 
 /-- drains never change the never-drained twin … -/
-theorem drain_keeps_twin (dD dF : Decoder) (h : IsTwin dD dF) (op : DrainOp) : IsTwin (applyDrain dD op).1 dF :=
+theorem drain_keeps_twin (dD dF : Decoder σ) (h : IsTwin dD dF) (op : DrainOp) : IsTwin (applyDrain dD op).1 dF :=
   h.drain op
 
 /-- … and keep the retention invariant (nothing drained yet, or ≥ window retained) while the last
 block is not in -/
-theorem drain_keeps_retention (d : Decoder) (h : Retains d) (op : DrainOp) (hnd : d.blocksDone = false) :
+theorem drain_keeps_retention (d : Decoder σ) (h : Retains d) (op : DrainOp) (hnd : d.blocksDone = false) :
     Retains (applyDrain d op).1 :=
   h.drain op hnd
 
 /-- `decode_blocks` with ANY strategy on a drained decoder and on its twin: same result value / error,
 same source left; the resulting decoders are twins again and retention still holds -/
-theorem decodeBlocks_twin (dD dF : Decoder) (h : IsTwin dD dF) (hr : Retains dD) (s : Src) (strat : Strategy)
+theorem decodeBlocks_twin (dD dF : Decoder σ) (h : IsTwin dD dF) (hr : Retains dD) (s : Src) (strat : Strategy)
     (hoff : ∀ st, dD.state = some st →
       LoopOffsetsOk st.buf.window strat st.buf.content.size st.blockCounter (s.length + 1) st s) :
     (dF.decodeBlocks s strat).2 = (dD.decodeBlocks s strat).2 ∧
@@ -160,9 +164,23 @@ with any sink script and ring split) and `decode_blocks` calls (any strategies a
 * once the last block is in, delivered ++ buffered IS the content, `is_finished()` holds, the source
   left over is the input minus exactly the frame (`r.consumed` bytes), `bytes_read_from_source()` is the
   frame's length and the stored checksum is the frame's.
-`StreamingDecoder::read` is such a program (`streamingRead_is_program`).  (Model with the Spec's entropy
-decoders as stand-ins; C12/C13 replace them.) -/
-theorem valid_frame_any_schedule (d : Decoder) (f : List Nat) (hb : ∀ x ∈ f, x < 256) (r : Spec.FrameResult)
+`StreamingDecoder::read` is such a program (`streamingRead_is_program`).  For EVERY block decoder that
+satisfies `BlockContract` and `RefinesSpec` (the stand-in does: `valid_frame_any_schedule_standIn`). -/
+theorem valid_frame_any_schedule [RefinesSpec σ] (d : Decoder σ) (sdicts : List Spec.Dict)
+    (hdc : DictsCoupled d.dicts sdicts) (f : List Nat) (hb : ∀ x ∈ f, x < 256) (r : Spec.FrameResult)
+    (hs : Spec.decodeFrame f sdicts = some r) (hlim : r.header.window ≤ d.maxWindow)
+    (ops : List SOp) :
+    ∃ d0 rest, d.reset f = (d0, .ok rest) ∧ (DocOk d0 rest ops →
+      (runSched d0 rest ops).2.2.2 = none ∧
+      ∃ st tail, (runSched d0 rest ops).1.state = some st ∧
+        st.buf.hashed = (runSched d0 rest ops).2.2.1 ∧
+        r.content = (st.buf.hashed ++ st.buf.content ++ tail).toList ∧
+        (st.finished = true → tail = #[] ∧ (runSched d0 rest ops).1.isFinished = true ∧
+          (runSched d0 rest ops).2.1 = f.drop r.consumed ∧ st.bytesRead = r.consumed ∧ st.checksum = r.checksum)) :=
+  Model.valid_frame_any_schedule d sdicts hdc f hb r hs hlim ops
+
+/-- … in the form stated before the parametrisation: the stand-in decoder with its own dictionaries -/
+theorem valid_frame_any_schedule_standIn (d : DecA) (f : List Nat) (hb : ∀ x ∈ f, x < 256) (r : Spec.FrameResult)
     (hs : Spec.decodeFrame f (d.dicts.map Dict.toSpec) = some r) (hlim : r.header.window ≤ d.maxWindow)
     (ops : List SOp) :
     ∃ d0 rest, d.reset f = (d0, .ok rest) ∧ (DocOk d0 rest ops →
@@ -172,10 +190,10 @@ theorem valid_frame_any_schedule (d : Decoder) (f : List Nat) (hb : ∀ x ∈ f,
         r.content = (st.buf.hashed ++ st.buf.content ++ tail).toList ∧
         (st.finished = true → tail = #[] ∧ (runSched d0 rest ops).1.isFinished = true ∧
           (runSched d0 rest ops).2.1 = f.drop r.consumed ∧ st.bytesRead = r.consumed ∧ st.checksum = r.checksum)) :=
-  Model.valid_frame_any_schedule d f hb r hs hlim ops
+  Model.valid_frame_any_schedule d _ (dictsCoupled_standIn d.dicts) f hb r hs hlim ops
 
 /-- one block on a decoder drained in ANY way that follows a Spec run keeps following it -/
-theorem decodeOneBlock_follows (bytes : List Nat) (hb : ∀ x ∈ bytes, x < 256) (e : Spec.Entropy) (st : FState)
+theorem decodeOneBlock_follows [RefinesSpec σ] (bytes : List Nat) (hb : ∀ x ∈ bytes, x < 256) (e : Spec.Entropy) (st : FState σ)
     (out out1 : Array Nat) (e1 : Spec.Entropy) (n : Nat) (last : Bool) (hf : Follows st e out)
     (hs : specBlockStep st.buf.window st.buf.dict bytes e out = some (out1, e1, n, last)) :
     ∃ st1 bh, decodeOneBlock st bytes = (st1, .ok (bh, bytes.drop n)) ∧ bh.last = last ∧ 3 ≤ n ∧ n ≤ bytes.length ∧
@@ -190,7 +208,7 @@ with `StreamingDecoder::read` reducible to such a program (`streamingRead_is_pro
 `decode_from_to` covered call by call (`decodeFromTo_twin`, `decode_from_to_accounting`); the one induction
 that mixes `decode_from_to` chunks into `valid_frame_any_schedule` is not done. -/
 def schedule_independent_full : Prop :=
-  ∀ (d : Decoder) (f : List Nat) (r : Spec.FrameResult), (∀ x ∈ f, x < 256) →
+  ∀ (d : DecA) (f : List Nat) (r : Spec.FrameResult), (∀ x ∈ f, x < 256) →
     Spec.decodeFrame f (d.dicts.map Dict.toSpec) = some r → r.header.window ≤ d.maxWindow → r.consumed = f.length →
     ∀ (ops : List FOp), ∃ tail, r.content = (runFull (d.reset f).1 (f.drop (d.reset f).1.bytesRead) ops).2.2.1.toList ++ tail
 
@@ -207,7 +225,7 @@ programs that mix `decode_from_to` chunks with the other calls (the per-call lem
 (b) discharging `SchedOk` / `FromToOffsetsOk` from `Spec.decodeFrame f = some r` (needs the
 entropy-stage refinements of C01/C12/C13, and a refinement of the offset condition for frames whose
 first matches reach into a dictionary: `offset ≤ window ∨ nothing drained yet`). -/
-theorem schedule_independent_partial (dD dF : Decoder) (s : Src) (ops : List SOp)
+theorem schedule_independent_partial (dD dF : Decoder σ) (s : Src) (ops : List SOp)
     (htw : IsTwin dD dF) (hret : Retains dD ∨ dD.blocksDone = true) (hok : SchedOk dD s ops) :
     IsTwin (runSched dD s ops).1 (runSched dF s (blocksOnly ops)).1 ∧
     (runSched dD s ops).2.1 = (runSched dF s (blocksOnly ops)).2.1 ∧
@@ -218,7 +236,7 @@ theorem schedule_independent_partial (dD dF : Decoder) (s : Src) (ops : List SOp
 /-- `StreamingDecoder::read(buf)` IS a driver program of `decode_blocks(UptoBytes(k))` calls followed by
 one `read(buf)` (or the empty program when it returns 0 at once): same decoder, same source left, same
 bytes, same error — so `schedule_independent_partial` covers the streaming front end -/
-theorem streamingRead_is_program (d : Decoder) (s : Src) (n : Nat) :
+theorem streamingRead_is_program (d : Decoder σ) (s : Src) (n : Nat) :
     ∃ prog sE, runSched d s prog =
       match streamingRead d s n with
       | (d1, .ok (s1, out)) => (d1, s1, out, none)
@@ -230,14 +248,14 @@ theorem streamingRead_is_program (d : Decoder) (s : Src) (n : Nat) :
 any way and `decode_from_to(chunk, &mut [])` on its never-drained twin report the same consumed count
 (or the same error) and leave twins again — chunk by chunk, so the bytes written to the targets,
 followed by what is still buffered, are what the never-draining run has buffered -/
-theorem decodeFromTo_twin (dD dF : Decoder) (h : IsTwin dD dF) (hr : Retains dD) (s : Src) (n : Nat)
-    (st : FState) (hst : dD.state = some st) (hoff : FromToOffsetsOk st.buf.window (s.length + 1) st s) :
+theorem decodeFromTo_twin (dD dF : Decoder σ) (h : IsTwin dD dF) (hr : Retains dD) (s : Src) (n : Nat)
+    (st : FState σ) (hst : dD.state = some st) (hoff : FromToOffsetsOk st.buf.window (s.length + 1) st s) :
     IsTwin (dD.decodeFromTo s n).1 (dF.decodeFromTo s 0).1 ∧
     (dD.decodeFromTo s n).2.mapOk (·.1) = (dF.decodeFromTo s 0).2.mapOk (·.1) :=
   h.decodeFromTo hr s n st hst hoff
 
 /-- … and retention survives the call (or the last block is in, after which it is not needed) -/
-theorem decodeFromTo_retains (d : Decoder) (h : Retains d) (s : Src) (n : Nat) (st : FState) (hst : d.state = some st) :
+theorem decodeFromTo_retains (d : Decoder σ) (h : Retains d) (s : Src) (n : Nat) (st : FState σ) (hst : d.state = some st) :
     Retains (d.decodeFromTo s n).1 ∨ (d.decodeFromTo s n).1.blocksDone = true :=
   h.decodeFromTo s n st hst
 
@@ -245,8 +263,8 @@ theorem decodeFromTo_retains (d : Decoder) (h : Retains d) (s : Src) (n : Nat) (
 program the bytes handed out so far (= the hasher input, C08) followed by the bytes still buffered are
 exactly the buffer of the drain-free run of the same decode calls — so the delivered bytes are a
 prefix of what `decode_blocks(All); collect()` delivers -/
-theorem delivered_is_prefix_of_decoded_partial (d0 : Decoder) (s : Src) (ops : List SOp)
-    (hfresh : d0.hashed = #[]) (hok : SchedOk d0 s ops) (st stF : FState)
+theorem delivered_is_prefix_of_decoded_partial (d0 : Decoder σ) (s : Src) (ops : List SOp)
+    (hfresh : d0.hashed = #[]) (hok : SchedOk d0 s ops) (st stF : FState σ)
     (hD : (runSched d0 s ops).1.state = some st) (hF : (runSched d0 s (blocksOnly ops)).1.state = some stF) :
     st.buf.hashed ++ st.buf.content = stF.buf.content :=
   delivered_prefix_of_undrained d0 s ops hfresh hok st stF hD hF
@@ -257,14 +275,14 @@ theorem delivered_is_prefix_of_decoded_partial (d0 : Decoder) (s : Src) (ops : L
 equals the advance of `bytes_read_from_source()` exactly, and the bytes written fit the target — for
 every state, in particular for the call that finds only the checksum outstanding and is given 0–3
 bytes (reports 0), 4 or more (reports 4), and for the call that has to `init` first -/
-theorem decode_from_to_accounting (d d' : Decoder) (s : Src) (n r : Nat) (out : Array Nat)
+theorem decode_from_to_accounting (d d' : Decoder σ) (s : Src) (n r : Nat) (out : Array Nat)
     (h : d.decodeFromTo s n = (d', .ok (r, out))) :
     r ≤ s.length ∧ out.size ≤ n ∧ d'.bytesRead = d.bytesRead + r :=
   Decoder.decodeFromTo_accounting d d' s n r out h
 
 /-- `decode_blocks` accounting: the source handed back is the source given minus exactly the bytes
 counted (`bytes_read_from_source` advance) -/
-theorem decode_blocks_accounting (d d' : Decoder) (s rest : Src) (strat : Strategy) (fin : Bool)
+theorem decode_blocks_accounting (d d' : Decoder σ) (s rest : Src) (strat : Strategy) (fin : Bool)
     (h : d.decodeBlocks s strat = (d', .ok (rest, fin))) :
     ∃ n, n ≤ s.length ∧ rest = s.drop n ∧ d'.bytesRead = d.bytesRead + n := by
   cases hst : d.state with
@@ -289,31 +307,69 @@ def demoFrame : List Nat := [0x28, 0xB5, 0x2F, 0xFD, 0x24, 3, 0x19, 0, 0, 97, 98
 
 /-- F2's scenario on the repaired code: everything but the checksum first, then 3 bytes (0 reported),
 then all 4 (4 reported) -/
-example : ((({} : Decoder).decodeFromTo (demoFrame.take 12) 10).2.delivered (·.2)) = #[97, 98, 99] := by decide +kernel
-example : (((({} : Decoder).decodeFromTo (demoFrame.take 12) 10).1.decodeFromTo [1, 2, 3] 10).2.delivered
+example : ((({} : DecA).decodeFromTo (demoFrame.take 12) 10).2.delivered (·.2)) = #[97, 98, 99] := by decide +kernel
+example : (((({} : DecA).decodeFromTo (demoFrame.take 12) 10).1.decodeFromTo [1, 2, 3] 10).2.delivered
     (fun p => #[p.1])) = #[0] := by decide +kernel
-example : (((({} : Decoder).decodeFromTo (demoFrame.take 12) 10).1.decodeFromTo [1, 2, 3, 4] 10).2.delivered
+example : (((({} : DecA).decodeFromTo (demoFrame.take 12) 10).1.decodeFromTo [1, 2, 3, 4] 10).2.delivered
     (fun p => #[p.1])) = #[4] := by decide +kernel
 
 /-- a sink taking 2 of 3 bytes over a ring split after the first byte -/
 example : (({ content := #[1, 2, 3] } : DBuf).drainToSink 3 1 [.accept 1, .accept 1, .fail]).2.1 = 2 := by decide +kernel
 
 /-- `DocOk` is satisfiable (drain-only programs trivially; and see the evaluated programs below) -/
-example (d : Decoder) (s : Src) : DocOk d s [.drain .collect, .drain (.read 3)] := by simp [DocOk]
+example (d : DecA) (s : Src) : DocOk d s [.drain .collect, .drain (.read 3)] := by simp [DocOk]
 
 /-- a two-block frame (window 1 KiB is irrelevant: single segment, 6 bytes): raw "abc", raw last "def";
 block / read 1 / block / collect is a documented program (`SchedOk` is satisfiable) … -/
 def twoBlocks : List Nat := [0x28, 0xB5, 0x2F, 0xFD, 0x20, 6, 0x18, 0, 0, 97, 98, 99, 0x19, 0, 0, 100, 101, 102]
-example : ((runSched (({} : Decoder).reset twoBlocks).1 (twoBlocks.drop 6)
+example : ((runSched (({} : DecA).reset twoBlocks).1 (twoBlocks.drop 6)
     [.blocks (.uptoBlocks 1), .drain (.read 1), .blocks .all, .drain .collect]).2.2.1) = #[97, 98, 99, 100, 101, 102] := by
   decide +kernel
 /-- … and delivers what the drain-free run buffers -/
-example : ((runSched (({} : Decoder).reset twoBlocks).1 (twoBlocks.drop 6)
+example : ((runSched (({} : DecA).reset twoBlocks).1 (twoBlocks.drop 6)
     (blocksOnly [.blocks (.uptoBlocks 1), .drain (.read 1), .blocks .all, .drain .collect])).1.content)
       = #[97, 98, 99, 100, 101, 102] := by
   decide +kernel
 
 /-- an overlapping match with offset 2 over a buffer with 3 drained bytes in front -/
 example : Model.copyWithin 5 2 (#[9, 9, 9] ++ #[1, 2]) = #[9, 9, 9] ++ #[1, 2, 1, 2, 1, 2, 1] := by decide +kernel
+
+
+/-! ### instance B: the decoder the drivers run
+
+`DecB` = the frame-level model over the faithful block decoder (Model/FrameFaithful.lean); its
+`BlockContract` holds without hypotheses, so the schedule-independence theorems above hold for it as
+they stand.  The theorems about frames THE SPEC ACCEPTS additionally use the block-level refinement
+(`instRefinesSpecFaithful`, Proofs/FrameFaithful.lean, from `decompressBlock_refines_full_proved` of
+Proofs/BlkLitFull.lean): they too hold for `DecB` without hypotheses. -/
+
+theorem schedule_independent_partial_faithful (dD dF : DecB) (s : Src) (ops : List SOp)
+    (htw : IsTwin dD dF) (hret : Retains dD ∨ dD.blocksDone = true) (hok : SchedOk dD s ops) :
+    IsTwin (runSched dD s ops).1 (runSched dF s (blocksOnly ops)).1 ∧
+    (runSched dD s ops).2.1 = (runSched dF s (blocksOnly ops)).2.1 ∧
+    (runSched dD s ops).2.2.2 = (runSched dF s (blocksOnly ops)).2.2.2 ∧
+    (runSched dF s (blocksOnly ops)).2.2.1 = #[] :=
+  schedule_independent_partial dD dF s ops htw hret hok
+
+theorem delivered_is_prefix_of_decoded_partial_faithful (d0 : DecB) (s : Src) (ops : List SOp)
+    (hfresh : d0.hashed = #[]) (hok : SchedOk d0 s ops) (st stF : FState Blk.Scratch)
+    (hD : (runSched d0 s ops).1.state = some st) (hF : (runSched d0 s (blocksOnly ops)).1.state = some stF) :
+    st.buf.hashed ++ st.buf.content = stF.buf.content :=
+  delivered_is_prefix_of_decoded_partial d0 s ops hfresh hok st stF hD hF
+
+/-- `valid_frame_any_schedule` for the faithful decoder (dictionaries: any list the Spec's are coupled
+with, in particular none) -/
+theorem valid_frame_any_schedule_faithful (d : DecB) (sdicts : List Spec.Dict)
+    (hdc : DictsCoupled d.dicts sdicts) (f : List Nat) (hb : ∀ x ∈ f, x < 256) (r : Spec.FrameResult)
+    (hs : Spec.decodeFrame f sdicts = some r) (hlim : r.header.window ≤ d.maxWindow)
+    (ops : List SOp) :
+    ∃ d0 rest, d.reset f = (d0, .ok rest) ∧ (DocOk d0 rest ops →
+      (runSched d0 rest ops).2.2.2 = none ∧
+      ∃ st tail, (runSched d0 rest ops).1.state = some st ∧
+        st.buf.hashed = (runSched d0 rest ops).2.2.1 ∧
+        r.content = (st.buf.hashed ++ st.buf.content ++ tail).toList ∧
+        (st.finished = true → tail = #[] ∧ (runSched d0 rest ops).1.isFinished = true ∧
+          (runSched d0 rest ops).2.1 = f.drop r.consumed ∧ st.bytesRead = r.consumed ∧ st.checksum = r.checksum)) :=
+  Model.valid_frame_any_schedule d sdicts hdc f hb r hs hlim ops
 
 end Zstd.Props.C06
